@@ -89,6 +89,7 @@ type encOuter struct {
 	TS    *encTagStruct
 	MMid  map[string]*encMid
 	MMidV map[string]encMid
+	MSS   map[string][]encMid
 	Any   interface{}
 }
 
@@ -147,6 +148,7 @@ func (t encBadTag) Tags() ([]encrypt.PointerTag, error) {
 // encWithInfo carries per-event wrapper info.
 type encWithInfo struct {
 	encLeaf
+	Body *encOuter
 	evID string
 	salt []byte
 	info []byte
@@ -377,6 +379,17 @@ func (g *encGen) outer(where string, depth int) *encOuter {
 			o.MI["strs"] = []string{g.canary("redact", where+".MI{}[]string")}
 		}
 		o.MI["n"] = 5
+		if g.want() {
+			l := g.leaf(where + ".MI{}[]map{}*leaf")
+			o.MI["maps"] = []map[string]interface{}{{"leaf": &l, "str": g.canary("redact", where+".MI{}[]map{}string")}}
+		}
+		if g.want() {
+			l := g.leaf(where + ".MI{}[]interface{}map{}*leaf")
+			o.MI["anys"] = []interface{}{map[string]interface{}{"leaf": &l}, 7}
+		}
+	}
+	if g.want() {
+		o.MSS = map[string][]encMid{"s": {*g.mid(where + ".MSS{}[]")}}
 	}
 	if g.want() {
 		o.MM = map[string]map[string]string{"m": {"in": g.canary("redact", where+".MM{}{}")}}
@@ -883,6 +896,9 @@ func runEncrypt(rc *RunCtx, prop string) {
 			case useInfo:
 				info = &encWithInfo{encLeaf: g.leaf("*withinfo"), evID: fmt.Sprintf("ev-%d", i)}
 				if d.next(2) == 0 {
+					info.Body = g.outer("*withinfo.Body", 1)
+				}
+				if d.next(2) == 0 {
 					info.salt = []byte("event-salt")
 				}
 				if d.next(2) == 0 {
@@ -906,6 +922,9 @@ func runEncrypt(rc *RunCtx, prop string) {
 				snapshot = encBadTag{"x": g2.canary("redact", "badtag{}")}
 			case useInfo:
 				si := &encWithInfo{encLeaf: g2.leaf("*withinfo"), evID: info.evID}
+				if g2.d.next(2) == 0 {
+					si.Body = g2.outer("*withinfo.Body", 1)
+				}
 				g2.d.next(2)
 				g2.d.next(2)
 				g2.d.next(8)
